@@ -1898,6 +1898,13 @@ Proof.
   exists w'. auto 10.
 Qed.
 
+Lemma array_member_declared ms t sub :
+  zassoc 1 ms = Some (Some t) -> 0 < sub < 256 -> zassoc sub ms = None ->
+  od_get_type (OArrT ms) sub = Some t.
+Proof.
+  intros H1 Hs Hn. unfold od_get_type. rewrite Hn, H1. replace ((0 <? sub) && (sub <? 256)) with true by lia. reflexivity.
+Qed.
+
 Lemma raw_read_returns (w : cworld) idx sub v :
   net_wf (w_s w) -> n_fault (w_s w) = None -> mux_ok idx sub ->
   store_get idx sub (n_srv (w_s w)) = Some v -> zlen v < 2 ^ 32 ->
